@@ -2160,8 +2160,10 @@ func releasePendingReadIndexMessages(r *raft) {
 }
 
 func sendMsgReadIndexResponse(r *raft, m *pb.Message) {
-	// only one voting member (the leader) in the cluster
-	if r.trk.IsSingleton() {
+	// only one voting member (the leader) in the cluster. A leader that was
+	// demoted to learner or removed without stepping down is not that voter
+	// and must hear from it like any other leader.
+	if _, self := r.trk.Voters[0][r.id]; self && r.trk.IsSingleton() {
 		if resp := r.responseToReadIndexReq(m, r.raftLog.committed); resp.GetTo() != None {
 			r.send(resp)
 		}
